@@ -654,8 +654,18 @@ pub fn install_panic_hook() {
                 }
             }
         }
-        let file_short = match file.find("/src/") {
-            Some(ix) if file.starts_with('/') => file[ix + 1..].to_string(),
+        // Library files as `src/..`; files of dependencies as
+        // `<crate-version>/src/..` (without the registry directory).
+        let file_short = match file.rfind("/src/") {
+            Some(ix) if file.starts_with('/') => {
+                let head = &file[..ix];
+                let krate = head.rsplit('/').next().unwrap_or("");
+                if head.ends_with("/repo") || !head.contains("/registry/") {
+                    file[ix + 1..].to_string()
+                } else {
+                    format!("{krate}{}", &file[ix..])
+                }
+            }
             _ => file.clone(),
         };
         let signature = format!("panic:{}:{}:{}", file_short, function, normalise_message(&message));
